@@ -517,6 +517,10 @@ def int_summaries(P):
     P[U + 'checked_sub'] = checked(lambda a, b: ULE(b, a), lambda a, b: a - b)
     P[U + 'checked_add'] = checked(lambda a, b: BVAddNoOverflow(a, b, False), lambda a, b: a + b)
     P[U + 'checked_mul'] = checked(lambda a, b: BVMulNoOverflow(a, b, False), lambda a, b: a * b)
+    def i64_from_u64(se, env, pc, x):
+        st = env.get('$state'); fits = ULT(x, BitVecVal(1 << 63, 64))
+        return [(fits, Enum('Ok', (x,)), st), (Not(fits), Enum('Err', (Opaque('TryFromIntError'),)), st)]
+    P[r'<i64 as TryFrom<u64>>::try_from'] = i64_from_u64
     P[U + 'abs_diff'] = two(lambda a, b: If(ULT(a, b), b - a, a - b))
     P[U + 'min'] = two(lambda a, b: If(ULT(b, a), b, a)); P[U + 'max'] = two(lambda a, b: If(ULT(a, b), b, a))
     P[r'<u(?:8|16|32|64|size) as Ord>::(min|max)'] = None
@@ -524,11 +528,32 @@ def int_summaries(P):
     P[r'<u(?:8|16|32|64|size) as Ord>::min'] = P[U + 'min']; P[r'<u(?:8|16|32|64|size) as Ord>::max'] = P[U + 'max']
 
 
+def tuple_cmp_summaries(P):
+    """Lexicographic `PartialOrd` of tuples whose components are integers or abstract (bit-vector) byte strings."""
+    def val(se, env, x):
+        n = 0
+        while isinstance(x, Ref) and n < 8: x = se.deref(env, x); n += 1
+        return x
+    def rel(name):
+        def f(se, env, pc, a, b):
+            ta, tb = val(se, env, a), val(se, env, b)
+            if not (isinstance(ta, tuple) and isinstance(tb, tuple) and len(ta) == len(tb)): raise Inconclusive('tuple comparison of %r and %r' % (ta, tb))
+            xs = [(val(se, env, x), val(se, env, y)) for x, y in zip(ta, tb)]
+            if not all(is_bv(x) and is_bv(y) and x.size() == y.size() for x, y in xs): raise Inconclusive('tuple comparison over %r' % (xs,))
+            lt, eq = BoolVal(False), BoolVal(True)
+            for x, y in xs:
+                lt = Or(lt, And(eq, ULT(x, y))); eq = And(eq, x == y)
+            return one(env, {'lt': lt, 'le': Or(lt, eq), 'gt': And(Not(lt), Not(eq)), 'ge': Not(lt)}[name])
+        return f
+    for n in ('lt', 'le', 'gt', 'ge'): P[r'<\(.*\) as PartialOrd>::%s' % n] = rel(n)
+
+
 def std_summaries():
     S = {}
     P = {}
     S['$patterns'] = P
     int_summaries(P)
+    tuple_cmp_summaries(P)
     P[r'Vec::append'] = lambda se, env, pc, a, b: (se.store(env, a, the_list(se, env, a) + the_list(se, env, b)), se.store(env, b, []), one(env, ()))[2]
     P[r'(?:core|std)::slice::<impl \[.*\]>::sort_by_key'] = _sort_by_key_late
     P[r'<\[Vec<.*>; (\d+)\] as Default>::default'] = lambda se, env, pc: one(env, [[] for _ in range(7)])
@@ -551,6 +576,7 @@ def std_summaries():
     P[r'(?:std|alloc)::fmt::format::format_inner'] = lambda se, env, pc, *a: one(env, {'str': '<formatted>'})
     # smart pointers: transparent
     P[r'(?:Arc|Rc|Box)::new'] = ident
+    P[r'(?:parking_lot::lock_api::)?(?:RwLock|Mutex)::new'] = ident
     P[r'<(?:Arc|Rc|Box)<.*> as Clone>::clone'] = deref1
     P[r'Arc::clone'] = deref1
     P[r'<(?:Arc|Rc|Box|&|&mut )<?.*>? as (?:Deref|DerefMut|AsRef<.*>|Borrow<.*>)>::(?:deref|deref_mut|as_ref|borrow)'] = ptr_deref
